@@ -1112,6 +1112,13 @@ class Collocator:
                     for dim in output[name].get_index("collocation").names
                 ])
 
+                # A MultiIndex cannot be overwritten with new labels directly,
+                # it must be dissolved into its levels first (which we have
+                # just saved in stacked_dims_data):
+                output[name] = output[name].reset_index(
+                    "collocation", drop=True
+                )
+
             # Okay, actually we want to get rid of the main coordinate. It
             # should stay as a dimension name but without own labels. I.e. we
             # want to drop it. Because it still may a MultiIndex, we cannot
